@@ -759,6 +759,21 @@ class SampleObj(dict):
         return self is not other
 
 
+class SampleElem(SampleObj):
+    """A sample xml.etree Element: like the real one it is *falsy* when it has no child elements."""
+
+    def __bool__(self):
+        return bool(self.get("children"))
+
+
+def sample_elem(tag: str, text: Optional[str] = None, *children, **attrib):
+    e = SampleElem(__kind__="Element", tag=tag, text=text, children=list(children), attrib=dict(attrib), tail=None)
+    e["find"] = lambda path, e=e: next((c for c in e["children"] if c["tag"] == path.lstrip("./")), None)
+    e["findall"] = lambda path, e=e: [c for c in e["children"] if c["tag"] == path.lstrip("./")]
+    e["get"] = lambda k, d=None, e=e: e["attrib"].get(k, d)
+    return e
+
+
 def mini_exec(fn: ast.FunctionDef, args: Dict[str, object], budget: int = 2000, methods: Optional[Dict[str, ast.FunctionDef]] = None, _depth: int = 0,
               functions: Optional[Dict[str, ast.FunctionDef]] = None, ctors: Optional[Set[str]] = None):
     """Runs a small, side-effect-free function of the analysed program on *sample* arguments with the analyser's own
@@ -835,6 +850,49 @@ def mini_exec(fn: ast.FunctionDef, args: Dict[str, object], budget: int = 2000, 
         if isinstance(e, ast.Call) and isinstance(e.func, ast.Name) and e.func.id in env and isinstance(env[e.func.id], ClassTok) and ctors \
                 and env[e.func.id].name in ctors:
             return SampleObj(__kind__=env[e.func.id].name, __built__=True, args=[ev(a_) for a_ in e.args], kwargs={k.arg: ev(k.value) for k in e.keywords if k.arg})
+        if isinstance(e, ast.Call) and unparse(e.func) in ("re.sub", "re.match", "re.search", "re.fullmatch", "re.findall", "re.split", "re.escape", "re.compile"):
+            import re as _re_
+            a_ = [ev(x) for x in e.args]
+            kw_ = {k.arg: ev(k.value) for k in e.keywords if k.arg}
+            if not a_ or not isinstance(a_[0], (str, _re_.Pattern)) or len(a_[0] if isinstance(a_[0], str) else a_[0].pattern) > 400:
+                raise _PathEval.Unknown("regular expression that is not a short constant")
+            try:
+                return getattr(_re_, e.func.attr)(*a_, **kw_)
+            except (_re_.error, TypeError, IndexError) as ex:
+                raise _Raised(f"re.{e.func.attr}: {ex}")
+        if isinstance(e, ast.Call) and isinstance(e.func, ast.Attribute) and e.func.attr in ("group", "groups", "start", "end", "span", "sub", "match", "search", "fullmatch", "findall"):
+            import re as _re_
+            try:
+                recv_ = ev(e.func.value)
+            except _PathEval.Unknown:
+                recv_ = None
+            if isinstance(recv_, (_re_.Match, _re_.Pattern)):
+                try:
+                    return getattr(recv_, e.func.attr)(*[ev(x) for x in e.args], **{k.arg: ev(k.value) for k in e.keywords if k.arg})
+                except (_re_.error, TypeError, IndexError) as ex:
+                    raise _Raised(f"{e.func.attr}: {ex}")
+        if isinstance(e, ast.Call) and isinstance(e.func, ast.Name) and e.func.id in ("repr", "ord", "chr", "hex", "oct", "abs", "round") and e.func.id not in env:
+            vals_ = [ev(x) for x in e.args]
+            if any(isinstance(v_, (SampleObj, ClassTok)) for v_ in vals_):
+                raise _PathEval.Unknown(f"{e.func.id}() of a sample object")
+            try:
+                return {"repr": repr, "ord": ord, "chr": chr, "hex": hex, "oct": oct, "abs": abs, "round": round}[e.func.id](*vals_)
+            except (TypeError, ValueError) as ex:
+                raise _Raised(str(ex))
+        if isinstance(e, ast.Call) and isinstance(e.func, ast.Name) and e.func.id in env and callable(env[e.func.id]) and not isinstance(env[e.func.id], (SampleObj, ClassTok)):
+            # a function defined inside the interpreted function (or a lambda bound to a name)
+            return env[e.func.id](*[ev(x) for x in e.args])
+        if isinstance(e, ast.BinOp) and isinstance(e.op, ast.Mod):
+            l_, r_ = ev(e.left), ev(e.right)
+            if isinstance(l_, str):
+                try:
+                    return l_ % (tuple(r_) if isinstance(r_, list) and isinstance(e.right, ast.Tuple) else r_)
+                except (TypeError, ValueError) as ex:
+                    raise _Raised(str(ex))
+            try:
+                return l_ % r_
+            except (TypeError, ZeroDivisionError):
+                raise _PathEval.Unknown("modulo on these samples")
         if isinstance(e, ast.Call) and unparse(e.func) in ("itertools.product", "product"):
             import itertools as _it
             vals_ = []
@@ -951,10 +1009,10 @@ def mini_exec(fn: ast.FunctionDef, args: Dict[str, object], budget: int = 2000, 
             if isinstance(sep, str) and isinstance(items, list) and all(isinstance(x, str) for x in items):
                 return sep.join(items)
             raise _PathEval.Unknown("join of non-strings")
-        if isinstance(e, ast.Call) and isinstance(e.func, ast.Name) and e.func.id in ("range", "min", "max", "zip", "enumerate", "all", "any", "len", "list", "tuple", "bool", "sorted", "reversed", "dict", "set", "str", "int"):
+        if isinstance(e, ast.Call) and isinstance(e.func, ast.Name) and e.func.id in ("range", "min", "max", "zip", "enumerate", "all", "any", "len", "list", "tuple", "bool", "sorted", "reversed", "dict", "set", "str", "int", "sum"):
             vals = [ev(a_) for a_ in e.args]
             f_ = {"range": range, "min": min, "max": max, "zip": zip, "enumerate": enumerate, "all": all, "any": any, "len": len, "list": list,
-                  "tuple": tuple, "bool": bool, "sorted": sorted, "reversed": reversed, "dict": dict, "set": set, "str": str, "int": int}[e.func.id]
+                  "tuple": tuple, "bool": bool, "sorted": sorted, "reversed": reversed, "dict": dict, "set": set, "str": str, "int": int, "sum": sum}[e.func.id]
             if e.func.id == "str" and any(isinstance(v_, SampleObj) for v_ in vals):
                 raise _PathEval.Unknown("str() of a sample object")
             kws_ = {k.arg: ev(k.value) for k in e.keywords if k.arg}
@@ -962,6 +1020,8 @@ def mini_exec(fn: ast.FunctionDef, args: Dict[str, object], budget: int = 2000, 
                 r = f_(*vals, **kws_)
             except TypeError:
                 raise _PathEval.Unknown(f"{e.func.id}() of these samples")
+            except (ValueError, IndexError, KeyError, OverflowError) as ex:
+                raise _Raised(f"{type(ex).__name__}: {ex}")
             return list(r) if e.func.id in ("range", "zip", "enumerate", "reversed") else r
         if isinstance(e, ast.GeneratorExp):
             # a generator expression is lazy: its first iterable is evaluated now, everything else when the consumer asks for the next
@@ -1133,6 +1193,18 @@ def mini_exec(fn: ast.FunctionDef, args: Dict[str, object], budget: int = 2000, 
                     cur.extend(ev(st.value))
                 else:
                     base[st.target.attr] = cur + ev(st.value)
+            elif isinstance(st, ast.FunctionDef) and not st.decorator_list:
+                def local_fn(*vals, _g=st):
+                    ps_ = [a.arg for a in _g.args.args]
+                    if len(vals) > len(ps_):
+                        raise _PathEval.Unknown("local function called with too many arguments")
+                    call_env = dict(env)
+                    call_env.update(zip(ps_, vals))
+                    for p_, d_ in zip(ps_[len(ps_) - len(_g.args.defaults):], _g.args.defaults):
+                        if ps_.index(p_) >= len(vals):
+                            call_env[p_] = ev(d_)
+                    return mini_exec(_g, call_env, budget, methods, _depth + 1, functions, ctors)
+                env[st.name] = local_fn
             elif isinstance(st, ast.Expr) and isinstance(st.value, ast.Call):
                 ev(st.value)
             elif isinstance(st, ast.While):
